@@ -360,46 +360,55 @@ func (c *ctx) stateChecks(pw []int64, hist []opT) (out []viol) {
 			if base == nil {
 				continue
 			}
+			// reference: entering every round; refs[r] = observation at round +r
+			refs := make([]slotObs, c.maxRound+1)
+			refOK := make([]bool, c.maxRound+1)
+			{
+				v, okv := base, true
+				for r := 1; r <= c.maxRound && okv; r++ {
+					if v, okv = walkRounds(v, []int64{1}); okv {
+						refs[r], refOK[r] = observe(v, false), true
+					}
+				}
+			}
+			// every other way of getting there: depth-first over jump sequences,
+			// each node one Copy+IncrementAccum from its parent
 			r2failed := false
-			for r := 2; r <= c.maxRound && !r2failed; r++ {
-				ones := make([]int64, r)
-				for i := range ones {
-					ones[i] = 1
-				}
-				ref, okRef := walkRounds(base, ones)
-				if !okRef {
-					atomic.AddInt64(&c.nR2skip, 1)
-					continue
-				}
-				refObs := observe(ref, false)
-				for _, path := range compCache[r] {
-					got, okP := walkRounds(base, path)
-					if !okP {
+			var dfs func(v *types.ValidatorSet, sum int, path []int64, allOnes bool)
+			dfs = func(v *types.ValidatorSet, sum int, path []int64, allOnes bool) {
+				for d := 1; sum+d <= c.maxRound && !r2failed; d++ {
+					ones := allOnes && d == 1
+					nv, okn := walkRounds(v, []int64{int64(d)})
+					if !okn || !refOK[sum+d] {
 						atomic.AddInt64(&c.nR2skip, 1)
 						continue
 					}
-					atomic.AddInt64(&c.nR2paths, 1)
-					gotObs := observe(got, false)
-					d := diffObs(refObs, gotObs)
-					if d == "" {
-						continue
+					p2 := append(append(make([]int64, 0, len(path)+1), path...), int64(d))
+					if !ones {
+						atomic.AddInt64(&c.nR2paths, 1)
+						gotObs := observe(nv, false)
+						if df := diffObs(refs[sum+d], gotObs); df != "" {
+							atomic.AddInt64(&c.nR2fail, 1)
+							if len(hist) == 0 {
+								atomic.AddInt64(&c.r2FreshFail, 1)
+							}
+							c.classes.Add("R2:batched-differs/" + df)
+							k := kase
+							k.Check, k.Slot, k.Path = "R2", u, p2
+							from := readMembers(base)
+							refObs, r := refs[sum+d], sum+d
+							out = append(out, viol{map[string]string{"site": "ValidatorSet.IncrementAccum", "kind": "batched-differs-from-sequential", "differs": df}, k,
+								func() string {
+									return fmt.Sprintf("%v after %s: from %s with members %v, a replica that enters every round up to round +%d gets %v; a replica that jumps by %v (Copy+IncrementAccum per jump, as enterNewRound does) gets %v", pw, histString(hist), slotName(k.Slot), from, r, refObs, k.Path, gotObs)
+								}})
+							r2failed = true
+							return
+						}
 					}
-					atomic.AddInt64(&c.nR2fail, 1)
-					if len(hist) == 0 {
-						atomic.AddInt64(&c.r2FreshFail, 1)
-					}
-					c.classes.Add("R2:batched-differs/" + d)
-					k := kase
-					k.Check, k.Slot, k.Path = "R2", u, path
-					from := readMembers(base)
-					out = append(out, viol{map[string]string{"site": "ValidatorSet.IncrementAccum", "kind": "batched-differs-from-sequential", "differs": d}, k,
-						func() string {
-							return fmt.Sprintf("%v after %s: from %s with members %v, a replica that enters every round up to round +%d gets %v; a replica that jumps by %v (Copy+IncrementAccum per jump, as enterNewRound does) gets %v", pw, histString(hist), slotName(k.Slot), from, len(ones), refObs, k.Path, gotObs)
-						}})
-					r2failed = true
-					break
+					dfs(nv, sum+d, p2, ones)
 				}
 			}
+			dfs(base, 0, nil, true)
 			if !r2failed {
 				c.classes.Add("R2:agree")
 			}
